@@ -86,6 +86,20 @@ size_t HashBdh::getSize() {
   return mem;
 }
 
+void HashBdh::save(std::ostream &fp) {
+  // The image holds one field per table cell: undo the compaction done by load
+  saveValue(fp, tsize);
+  saveValue(fp, n);
+
+  LogSequence *seq = new LogSequence(hash->getNumbits(), tsize);
+  for (size_t i = 1; i <= n; i++)
+    seq->setField(b_ht->select1(i), hash->getField(i - 1));
+  seq->save(fp);
+  delete seq;
+
+  b_ht->save(fp);
+}
+
 HashBdh *HashBdh::load(std::istream &fp) {
   HashBdh *h_new = new HashBdh();
 
